@@ -18,7 +18,13 @@ pub struct Case {
 
 pub fn decode(bytes: &[u8]) -> Case {
     let (mut s, mut gs) = crate::stream::split(bytes, 16);
-    let cfg = if s.chance(48) { GenCfg::medium() } else { GenCfg::small() };
+    // one case in eight uses the configuration of the thread properties (wide games, and games
+    // that give a player several hundred infosets)
+    let cfg = match s.weighted(&[26, 6, 4]) {
+        0 => GenCfg::small(),
+        1 => GenCfg::medium(),
+        _ => GenCfg::wide(),
+    };
     let built = gen_built(&mut gs, &cfg);
     let iters = match s.weighted(&[8, 2]) {
         0 => 1 + s.below(40) as u64,
